@@ -328,6 +328,64 @@ example : (implRun demoPre demoTree).halt = true := by
   simp only [Outcome.eff, Prod.mk.injEq] at this
   rw [this.1]; exact h2
 
+/-! ### 2b. Whole blocks: the block cache after a block is the transactional one -/
+
+/-- the transactional specification of a block: fees burnt first, then every transaction all-or-nothing. -/
+def specStepTx (σ : Log) (tx : Tx) : Log := (specRun σ tx.tree).store
+def specBlockRun (σ : Log) (txs : List Tx) : Log := txs.foldl specStepTx (burnAll σ txs)
+
+/-- no transaction of the list, run on the state it meets, applies the deviating commit rule. -/
+def NoDevAll : Log → List Tx → Prop
+  | _, [] => True
+  | σ, tx :: rest => (specKRun σ tx.tree).2 = false ∧ NoDevAll (stepTx σ tx) rest
+
+theorem exec_refines_spec (txs : List Tx) : ∀ σ, NoDevAll σ txs → execAll σ txs = txs.foldl specStepTx σ := by
+  induction txs with
+  | nil => intro σ _; rfl
+  | cons tx rest ih =>
+    intro σ h
+    obtain ⟨h1, h2⟩ := h
+    have e : stepTx σ tx = specStepTx σ tx := by
+      have := impl_refines_spec_unless_finally_commit σ tx.tree h1
+      simp only [Outcome.eff, Prod.mk.injEq] at this
+      exact this.2.1
+    unfold execAll at ih ⊢
+    simp only [List.foldl_cons]
+    rw [← e]
+    exact ih (stepTx σ tx) h2
+
+/-- C04 over histories: for EVERY block (any number of transactions, any trees, any pre-state) in which no
+    transaction applies the deviating commit rule on the state it meets, the block cache after the block is
+    the one of the transactional specification. -/
+theorem block_refines_spec (σ : Log) (txs : List Tx) (h : NoDevAll (burnAll σ txs) txs) :
+    blockRun σ txs = specBlockRun σ txs :=
+  exec_refines_spec txs _ h
+
+theorem noDevAll_of_safe (txs : List Tx) : ∀ σ, (∀ tx ∈ txs, safe tx.tree = true) → NoDevAll σ txs := by
+  induction txs with
+  | nil => intro σ _; trivial
+  | cons tx rest ih =>
+    intro σ h
+    exact ⟨safe_never_deviates σ tx.tree (h tx (List.mem_cons_self)),
+      ih _ (fun t ht => h t (List.mem_cons_of_mem _ ht))⟩
+
+/-- ... in particular for every block all of whose trees keep calls out of FINALLY blocks. -/
+theorem block_refines_spec_safe (σ : Log) (txs : List Tx) (h : ∀ tx ∈ txs, safe tx.tree = true) :
+    blockRun σ txs = specBlockRun σ txs :=
+  block_refines_spec σ txs (noDevAll_of_safe txs _ h)
+
+-- non-vacuity: a halting transaction, a faulting one (its writes vanish, its fee stays burnt), the big demo tree
+example : blockRun ([.set (gasTab, senderAcc) 100] ++ demoPre)
+    [⟨3, .call 0 Flags.all (.put 1 1)⟩, ⟨5, .call 0 Flags.all (.seq (.put 1 9) .abort)⟩, ⟨2, demoTree⟩] =
+    specBlockRun ([.set (gasTab, senderAcc) 100] ++ demoPre)
+    [⟨3, .call 0 Flags.all (.put 1 1)⟩, ⟨5, .call 0 Flags.all (.seq (.put 1 9) .abort)⟩, ⟨2, demoTree⟩] :=
+  block_refines_spec_safe _ _ (by decide)
+example : (specBlockRun [.set (gasTab, senderAcc) 100]
+    [⟨3, .call 0 Flags.all (.put 1 1)⟩, ⟨5, .call 0 Flags.all (.seq (.put 1 9) .abort)⟩]).get (gasTab, senderAcc) = some 92 ∧
+    (specBlockRun [.set (gasTab, senderAcc) 100]
+    [⟨3, .call 0 Flags.all (.put 1 1)⟩, ⟨5, .call 0 Flags.all (.seq (.put 1 9) .abort)⟩]).get (0, 1) = some 1 := by decide
+
+
 /-! ### 3. A caught exception rolls back exactly the callee -/
 
 /-- Second sentence of C04. In a contract `c0` that does `a`, then calls `c1` inside try/catch,
@@ -664,6 +722,16 @@ theorem native_ro_cache_not_written_through :
     0 < CacheCopy.roSites ∧ 0 < CacheCopy.rwSites :=
   CacheFacts.native_ro_cache_not_written_through
 
+
+open NeoModel.Generated CacheFacts in
+/-- regenerated from source (taint analysis inside every function of pkg/core/native + a scan of pkg/core,
+    pkg/core/interop/**, stateroot, mempool): nothing stored in a cache is modified through a LOCAL ALIAS (no
+    in-place arithmetic on a *big.Int read out of a cache, no element write through a copied slice header, no
+    hand-over to an unreviewed function) except into containers the layer owns, and no user of the exported
+    getters (native.GetContract hands out the cached *state.Contract) assigns through such a pointer. -/
+theorem native_cache_aliases_read_only :
+    CacheCopy.aliasWrites.all aliasOK = true ∧ CacheCopy.externalPointeeWrites = [] ∧ 100 ≤ CacheCopy.externalFuncsScanned :=
+  CacheFacts.native_cache_aliases_read_only
 
 /-! ### 6b. Why the shared containers are harmless: a two-level heap model of a cache object
 
